@@ -8,6 +8,7 @@ from ..num import wire, unwire, canon, exact, INF
 from ..pools import RecPool
 
 STREAMS = ["ops-exact", "grid-single-write", "infinite-supply"]
+REGENERATE_SRC = True
 RULE = ("parameters from a lattice that puts two or three limits in play (fractional, integral, "
         "infinite; window inside/overlapping/outside [min,max]); op programs of writes, reads, "
         "increments, supply changes and outside demand changes over int / Fraction / dyadic-float "
